@@ -85,7 +85,7 @@ def main():
         "engines": [{"name": "verifsim", "path": "/verif/cmd/verifsim", "serves_properties": sorted(claimed), "kind_free_text": "deterministic simulation with fault injection: seeded cooperative scheduler (verif/sim/rt) under real goroutines running the rewritten library; reference-model and linearizability oracles; minimised replay files"}],
         "checks": checks,
         "not_applicable": na,
-        "notes": "Exit 0 held / 1 VIOLATION / 2 the check could not do its job. VERIF_SEED and VERIF_TIER honoured. Known findings: /verif/known_findings.json (no open entries; every entry is a fixed one with its /repo commit and the replay kept under /verif/corpus). Independently seeded breaking changes and what catches them: /verif/seeded/ and DESIGN.md 11.6; tools/seeded_regress.py re-runs them all. ./check selftest proves same-seed determinism across processes, GOMAXPROCS and plain/-race builds.",
+        "notes": "Exit 0 held / 1 VIOLATION / 2 the check could not do its job. VERIF_SEED and VERIF_TIER honoured. Known findings: /verif/known_findings.json (no open entries; every entry is a fixed one with its /repo commit and the replay kept under /verif/corpus). Independently seeded breaking changes (191, nine waves) and what catches them: /verif/seeded/ and DESIGN.md 11.6; tools/seeded_regress.py re-runs them all. Correct re-implementations that must stay silent (64): /verif/controls/ and DESIGN.md 11.8; tools/control_eval.py --regress. Strategy comparison: DESIGN.md 11.9. ./check selftest proves same-seed determinism across processes, GOMAXPROCS and plain/-race builds.",
     }
     json.dump(m, open(V + '/MANIFEST.json', 'w'), indent=1)
     print("claimed:", sorted(claimed), "n/a:", [x["property_id"] for x in na])
